@@ -178,7 +178,17 @@ def check_numeric(field, n, value, out):
     elif field.comma and not field.expo and len(digits_ip) > 3:
         bad.append(('comma', 'field %r: %r lacks thousands commas' % (field.spec, out)))
     # ---- exponential form: digits left-justified over the positions the field gives ----------------
-    if field.expo:
+    if field.expo and info['overflow']:
+        # % only when the number does not fit: an exponential form can always shed digits left of the
+        # point, so it fits whenever sign + $ + one mantissa digit (or the decimals) + exponent part fit
+        least = ((1 if (neg and not field.plus_lead and not field.trail) else 0) + (1 if field.plus_lead else 0) +
+                 (1 if field.dollar else 0) + (0 if field.decimals else 1) +
+                 ((1 + field.decimals) if field.dot else 0) + 4 + (1 if field.trail else 0))
+        if least <= width:
+            bad.append(('percent-on-fitting-number', 'field %r value %.17g shown as %r: an exponential form of %d characters fits'
+                        % (field.spec, float(value), out, least)))
+    if field.expo and not field.dollar:
+        # (with $ the manual rules exponential form out: how many positions hold digits is not pinned there)
         signspec = field.plus_lead or field.trail
         want_ip = max(0, field.positions_before - (0 if signspec else 1))
         if not (len(ip) == want_ip or (want_ip == 0 and ip == b'0')):
